@@ -641,6 +641,42 @@ Section HB.
     pose proof (done_le_cursor s HJ g Hg) as Hcur. destruct HJ as [(P1 & P2 & _ & _ & P5) _]. rewrite Hpp in P5. destruct P5 as (_ & Q & _).
     specialize (P2 ltac:(lia)). pose proof (same_slot_gap j q Hm ltac:(lia)). lia.
   Qed.
+  (* ---------- C04 / C13 on this model: no atomic-snapshot abstraction, stale loads allowed ---------------- *)
+  (* Whenever handler h is about to handle sequence i (state HBatch i a): *)
+  Theorem hb_delivery s h i a :
+    reachable s -> h < H -> hp s h = HBatch i a ->
+    (* in order, exactly once, no gaps: i is the successor of the last sequence it returned from *)
+    i = S (done s h) /\
+    (* only what is completely written and published *)
+    i <= cursor s /\ i < fill_ptr s /\
+    (* every handler of every EARLIER stage has returned from i (so h sees their modifications) *)
+    (forall g, g < H -> stage g < stage h -> i <= done s g) /\
+    (* no handler of a LATER stage has touched i, and the producer has not begun to overwrite the slot *)
+    (forall g, g < H -> stage h < stage g -> done s g < i) /\ fill_ptr s <= i + N.
+  Proof.
+    intros HR Hh Hhp. pose proof (reachable_J s HR) as HJ. pose proof HJ as [JP JH].
+    destruct (JH h Hh) as (A & B & C & D). rewrite Hhp in D. destruct D as (D1 & D2 & D3 & D4).
+    destruct JP as (P1 & P2 & P3 & P4 & P5).
+    assert (Hpn : pnext s <= fill_ptr s).
+    { destruct (pp s) as [|e todo m|q e m|e m]; [lia | destruct P5; lia | destruct P5 as (? & ? & _); lia | destruct P5 as (? & ? & _); lia]. }
+    (* everything a handler may take as available is published *)
+    assert (Hav : a <= cursor s).
+    { destruct (Nat.eq_dec (stage h) 0) as [E|E]; [auto|].
+      destruct (stage_nonempty (stage h - 1)) as (d & Hd & Ed); [pose proof (stage_le h Hh); lia|].
+      specialize (D4 d Hd ltac:(lia)). pose proof (done_le_cursor s HJ d Hd). destruct (JH d Hd) as (Ad & _). lia. }
+    split; [exact D1|]. split; [lia|]. split; [specialize (P2 ltac:(lia)); lia|].
+    split; [|split].
+    - (* earlier stages: by induction on the distance *)
+      assert (K : forall k g, g < H -> stage g + S k = stage h -> a <= hcur s g).
+      { induction k as [|k IH]; intros g Hg Eg; [apply D4; [exact Hg | lia]|].
+        destruct (stage_nonempty (S (stage g))) as (d & Hd & Ed); [pose proof (stage_le h Hh); lia|].
+        specialize (IH d Hd ltac:(lia)). destruct (JH d Hd) as (_ & _ & Cd & _). specialize (Cd g Hg ltac:(lia)).
+        destruct (JH d Hd) as (Ad & _). lia. }
+      intros g Hg Hlt. specialize (K (stage h - stage g - 1) g Hg ltac:(lia)). destruct (JH g Hg) as (Ag & _). lia.
+    - intros g Hg Hlt. pose proof (later_stage_behind s HJ h g Hh Hg Hlt). lia.
+    - pose proof (last_stage_lowest s (fill_ptr s - N - 1) HJ) as K. specialize (K ltac:(intros l Hl El; specialize (P4 l Hl El); lia) h Hh). lia.
+  Qed.
+
   (* No overwrite before consumption, re-proved here where gating cursors are read one at a time (the Pipeline
      model reads them in one atomic snapshot): while the producer fills q, every handler has finished q - N. *)
   Theorem no_overwrite_percursor s q e m :
